@@ -23,6 +23,16 @@ pub fn gen_corpus_spec(rng: &mut Prng, tier: Tier) -> Spec {
     }
     if rng.chance(1, 6) {
         let mut s = gen_jitter_spec(rng, "C18", &jitter_fault_set(), false);
+        if s.variant == "jitter_history" && rng.chance(1, 8) {
+            // the timer test first, on one of the scripts aimed at its failure classes and boundaries (deltas
+            // near +-2^31 and 2^32 among them), then the history on the continuation of that clock
+            let t = super::c13::C13.generate(rng, tier);
+            if let Some(c) = t.clock {
+                s.clock = Some(c);
+                s.aux = Vec::new();
+                s.ops.insert(0, Op::TestTimer);
+            }
+        }
         s.variant = "corpus_jitter".into();
         return s;
     }
@@ -139,6 +149,19 @@ pub fn exec_corpus(spec: &Spec, st: &mut Stats) -> Vec<u64> {
                 Err(e) => Err(e),
             },
             Op::TimerStats(v) => guard(|| g.jitter().map(|j| j.timer_stats(*v)).unwrap_or(0)).map(|x| d.u64(x as u64)),
+            Op::TestTimer => {
+                if kind == Kind::Jitter {
+                    let r = g.jitter_ref().unwrap().reads();
+                    g.jitter_ref().unwrap().set_cap(r + 1700);
+                }
+                guard(|| {
+                    g.jitter().map(|j| match j.test_timer() {
+                        Ok(r) => r as u64,
+                        Err(_) => 1000,
+                    })
+                })
+                .map(|x| d.u64(x.unwrap_or(0)))
+            }
             Op::SetRounds(r) => {
                 if *r > 0 {
                     guard(|| {
